@@ -9,7 +9,7 @@ C15 — executable model of what `snowfakery/standard_plugins/Schedule.py` compu
 * `combine`: `dateutil.rruleset` (rrule ∪ rdate ∪ nested sets, minus exdate / exrule, sorted,
   duplicates dropped).
 * `Params` / `pluginRule` / `normUntil` / `normDateArg`: what `CalendarRule.__init__` does with
-  the recipe keywords *including its quirks* (`byweekno` is fed from `bysecond`; `until`,
+  the recipe keywords *including its quirks* (`until`,
   `include`, `exclude` dates are forced to UTC; a datetime-valued `until` loses its time).
 
 Times are integers: a local wall-clock second count `L = ordinal * 86400 + second_of_day`
@@ -382,7 +382,7 @@ def Kw.name : Kw → String
 def wiringTable : List (Kw × Kw) :=
   [(.freq, .freq), (.dtstart, .startDate), (.interval, .interval), (.wkst, .constSU), (.count, .count),
    (.until_, .until_), (.bysetpos, .bysetpos), (.bymonth, .bymonth), (.bymonthday, .bymonthday),
-   (.byyearday, .byyearday), (.byeaster, .byeaster), (.byweekno, .bysecond),
+   (.byyearday, .byyearday), (.byeaster, .byeaster), (.byweekno, .byweekno),
    (.byweekday, .byweekdayOrNone), (.byhour, .byhour), (.byminute, .byminute), (.bysecond, .bysecond),
    (.cache, .cache)]
 
